@@ -136,6 +136,20 @@ def sortedKeys : List Key → Bool
   | a :: b :: l => decide (a < b) && sortedKeys (b :: l)
 def sortedPlan (plan : List PlanItem) : Bool := sortedKeys (plan.map (·.1))
 
+/-- `lockKeys`: `mode[key] = w` into the map, then the keys of the map sorted — as an insertion into a list that is
+    kept sorted and free of duplicates (a later assignment to the same key overrides the mode) -/
+def insertItem (k : Key) (w : Bool) : List PlanItem → List PlanItem
+  | [] => [(k, w, true)]
+  | (k', w', p') :: l =>
+    if k < k' then (k, w, true) :: (k', w', p') :: l
+    else if k = k' then (k', w, p') :: l
+    else (k', w', p') :: insertItem k w l
+
+/-- the plan of `tx.lockKeys(write, read...)`: read keys first (`mode[key] = false`), then write keys (`= true`);
+    always with a placeholder -/
+def lockPlan (write read : List Key) : List PlanItem :=
+  write.foldl (fun acc k => insertItem k true acc) (read.foldl (fun acc k => insertItem k false acc) [])
+
 def holdsName (l : Loc) (k : Key) : Bool := l.held.any fun h => h.key == k
 /-- the thread holds a record named `k`, and every record of that name it holds is write-locked -/
 def holdsNameW (l : Loc) (k : Key) : Bool :=
